@@ -539,6 +539,19 @@ pub fn verif_verify_dummy_private_batch_template(
     verify_dummy_private_batch_template(template, private_batch_verifier)
 }
 
+/// Verification hook: make a committed prover committable again (`commit`
+/// consumes the targets and fills the witness). The caller supplies the
+/// targets of the same circuit (`PublicBatchCircuit::new(..).targets()` is
+/// deterministic), so several commits can be observed over one circuit build.
+#[cfg(quantus_network_qp_zk_circuits_verif)]
+impl PublicBatchProver {
+    pub fn verif_c15_recycle(mut self, targets: PublicBatchCircuitTargets) -> Self {
+        self.targets = Some(targets);
+        self.partial_witness = PartialWitness::new();
+        self
+    }
+}
+
 #[cfg(test)]
 mod tests {
     use super::*;
